@@ -57,6 +57,7 @@ class ProgStats:
     tealer_s: float = 0.0
     skipped: str = ""
     nontrivial: bool = False  # at least one non-default claim was checked / danger query was sat
+    extra: Dict[str, Any] = field(default_factory=dict)  # additional integer counters (states, transitions, ...)
 
     def absorb(self, dom: sx.Z3Dom) -> None:
         self.queries["sat"] += dom.stats.sat
@@ -256,6 +257,9 @@ def check_soundness(
 # ---------------------------------------------------------------------------------------------
 
 
+FREE_DEPTH = 8  # call depth bound of the direct-check explorations (cuts beyond it are reported, never turned into alarms)
+
+
 def multi_site_subs(prog: ts.Prog) -> Set[int]:
     """Entry pcs of subroutines that are the target of more than one callsub instruction."""
     cnt: Dict[int, int] = {}
@@ -290,9 +294,10 @@ def _free_admitted(prog: ts.Prog, key: str, var_of: Callable[[sx.Z3Dom], Any], u
         st.paths += 1
         if res.cut:
             st.cut += 1
-            cut[0] = True
+            if res.cut != "loop":
+                cut[0] = True  # depth / fuel / budget: the set of accepting paths may be incomplete
 
-    _ex, dom = sx.explore(prog, "FREE", [key], unroll, retsub_any=retsub_any, on_accept=on_accept, on_any=on_any)
+    _ex, dom = sx.explore(prog, "FREE", [key], unroll, max_depth=FREE_DEPTH, retsub_any=retsub_any, on_accept=on_accept, on_any=on_any)
     st.absorb(dom)
     return admitted, inside, cut[0]
 
@@ -306,12 +311,14 @@ def check_exact_int(src: str, prop: str = "C06", unroll: int = 2, run: Optional[
         run = Run(src, detectors=[])
     st.tealer_s = time.time() - t0
     findings: List[Finding] = []
+    incomplete = False
     try:
         res: Dict[str, Any] = {}
         for key, var_of, uni in (("GroupSize", lambda d: d.gs, range(1, 17)), ("GroupIndex", lambda d: d.gi, range(0, 16))):
-            exact, inside, _ = _free_admitted(prog, key, var_of, list(uni), False, unroll, st)
-            upper, inside2, _ = _free_admitted(prog, key, var_of, list(uni), True, unroll, st) if multi_site_subs(prog) else (exact, inside, False)
+            exact, inside, inc1 = _free_admitted(prog, key, var_of, list(uni), False, unroll, st)
+            upper, inside2, inc2 = _free_admitted(prog, key, var_of, list(uni), True, unroll, st) if multi_site_subs(prog) else (exact, inside, False)
             res[key] = (exact, upper, {**inside, **inside2})
+            incomplete = incomplete or inc1 or inc2
     except ts.Unsupported as e:
         st.skipped = f"unsupported opcode {e}"
         return [], st
@@ -335,13 +342,13 @@ def check_exact_int(src: str, prop: str = "C06", unroll: int = 2, run: Optional[
         if not ex_gs <= listed_gs:
             add("exact:group_sizes:missing", f"block at line {line}: sizes {sorted(ex_gs - listed_gs)} are admitted by an accepting direct-check path but not listed",
                 sorted(listed_gs), sorted(ex_gs))
-        if not listed_gs <= (up_gs if ins_gs else ex_gs):
+        if not incomplete and not listed_gs <= (up_gs if ins_gs else ex_gs):
             add("exact:group_sizes:extra", f"block at line {line}: sizes {sorted(listed_gs - (up_gs if ins_gs else ex_gs))} are listed but no accepting direct-check path through the block admits them",
                 sorted(listed_gs), sorted(up_gs if ins_gs else ex_gs))
         if not need_gi <= listed_gi:
             add("exact:group_indices:missing", f"block at line {line}: indices {sorted(need_gi - listed_gi)} admitted (and below the largest listed size) but not listed",
                 sorted(listed_gi), sorted(need_gi))
-        if not listed_gi <= (up_gi if ins_gi else ex_gi):
+        if not incomplete and not listed_gi <= (up_gi if ins_gi else ex_gi):
             add("exact:group_indices:extra", f"block at line {line}: indices {sorted(listed_gi - (up_gi if ins_gi else ex_gi))} listed but not admitted by any accepting direct-check path",
                 sorted(listed_gi), sorted(up_gi if ins_gi else ex_gi))
         if any(i >= maxs for i in listed_gi):
@@ -411,7 +418,7 @@ def check_fee_free(src: str, prop: str = "C09", exact: bool = False, unroll: int
             st.cut += 1
 
     try:
-        ex, dom = sx.explore(prog, "FREE", ["Fee"], unroll, on_accept=on_accept, on_any=on_any)
+        ex, dom = sx.explore(prog, "FREE", ["Fee"], unroll, max_depth=FREE_DEPTH, on_accept=on_accept, on_any=on_any)
     except ts.Unsupported as e:
         st.skipped = f"unsupported opcode {e}"
         return [], st
@@ -472,13 +479,18 @@ def free_admits(prog: ts.Prog, governed: Sequence[str], danger: Callable[[sx.Z3D
             if any(e in multi for e in entries):
                 inside[pc] = True
 
+    incomplete = [False]
+
     def on_any(dom: sx.Z3Dom, res: ts.PathResult, _s: Any) -> None:
         st.paths += 1
         if res.cut:
             st.cut += 1
+            if res.cut != "loop":
+                incomplete[0] = True
 
-    ex, dom = sx.explore(prog, "FREE", list(governed), unroll, retsub_any=retsub_any, on_accept=on_accept, on_any=on_any)
+    ex, dom = sx.explore(prog, "FREE", list(governed), unroll, max_depth=FREE_DEPTH, retsub_any=retsub_any, on_accept=on_accept, on_any=on_any)
     st.absorb(dom)
+    ex.incomplete = incomplete[0]  # type: ignore[attr-defined]
     return admits, inside, paths, ex
 
 
@@ -497,6 +509,8 @@ def check_addr_free(src: str, prop: str = "C08", unroll: int = 2, run: Optional[
         for fname in fields:
             admits, inside, _paths, _ex = free_admits(prog, [fname], lambda d, fname=fname: d.field(fname, d.gi) == ts.ADDR_ATT, unroll, st)
             st.nontrivial = True
+            if _ex.incomplete:
+                continue
             for b in run.function.blocks:
                 line = b.entry_instr.line
                 pcs = [i.idx for i in prog.ins if i.line == line]
@@ -647,6 +661,9 @@ class FreeDetectorView:
             self.cache[key] = free_admits(self.prog, gov, danger, self.unroll, self.st, retsub_any)
         return self.cache[key]
 
+    def incomplete(self, det: str) -> bool:
+        return any(self.projection(det, i)[3].incomplete for i in range(len(DETECTOR_PROJECTIONS[det])))
+
     def dangerous_traces(self, det: str) -> set:
         """Block traces of accepting direct-check paths on which every projection admits the dangerous value."""
         sets = []
@@ -693,7 +710,7 @@ def check_must_not_report(src: str, prop: str = "C03", unroll: int = 2, run: Opt
             if not run.paths[det]:
                 continue
             view.st.nontrivial = True
-            if not view.dangerous_traces(det):
+            if not view.dangerous_traces(det) and not view.incomplete(det):
                 p0 = run.paths[det][0]
                 findings.append(Finding(prop, "must-not-report:" + det, src,
                                         f"{det}: every accepting direct-check path excludes the dangerous value, but {len(run.paths[det])} path(s) are reported, e.g. "
